@@ -271,7 +271,7 @@ pub fn def() -> PropertyDef {
     PropertyDef {
         id: "C03",
         level: "exploration",
-        rule: "mutants: a valid message (all record types, unknown types/classes, names from a shared pool, 63-octet labels, 255-octet names) encoded by the reference encoder with random compression choices (pointers to any earlier suffix); the check then feeds the decoder the base message, every single-byte mutation (each offset < 400 x {+1,-1,0x00,0x3f,0x40,0xc0,0xff}) and every truncation, and compares accept/reject, all decoded fields and the ID rule with R-WIRE (counter 'inputs' = byte strings judged). constructions: the enumerated adversarial inputs (self/forward pointers, cycles, pointers into the header, reserved label types, label and name length boundaries in-line and through pointers, huge counts, RDLENGTH +-1/2 on every type, backward pointer chains up to 8180 hops incl. a 48 KB message with 4000 names ending in the maximal chain, trailing bytes, header prefixes). random: random bytes of length 0..3000, mostly with plausible counts. All run on a 2 MiB thread in a child process (stack overflow = crash = violation). A case is non-trivial if it is a mutant family of a valid message, a construction, or random bytes which the decoder accepts; distinct by hash of the case.",
+        rule: "mutants: a valid message (all record types, unknown types/classes, names from a shared pool, 63-octet labels, 255-octet names) encoded by the reference encoder with random compression choices (pointers to any earlier suffix); the check then feeds the decoder the base message, every single-byte mutation (each offset < 400 x {+1,-1,0x00,0x3f,0x40,0xc0,0xff}) and every truncation, and compares accept/reject, all decoded fields and the ID rule with R-WIRE (counter 'inputs' = byte strings judged). constructions: the enumerated adversarial inputs (self/forward pointers, cycles, pointers into the header, reserved label types, label and name length boundaries in-line and through pointers, huge counts, RDLENGTH +-1/2 on every type, backward pointer chains up to 8180 hops incl. a 64 KB message with 3000 names ending in the maximal chain, trailing bytes, header prefixes). random: random bytes of length 0..3000, mostly with plausible counts. All run on a 2 MiB thread in a child process (stack overflow = crash = violation). A case is non-trivial if it is a mutant family of a valid message, a construction, or random bytes which the decoder accepts; distinct by hash of the case.",
         assumptions: vec![
             "R-WIRE policy: trailing bytes ignored; a pointer must target an offset before the start of the name (sub)sequence being read; Z bits ignored",
             "release profile, repo toolchain; stack bound checked on a 2 MiB thread with a shallow call stack",
